@@ -15,7 +15,8 @@
    * ScriptThread: ~ScriptThread (Timing -> RemoveTiming, Waiting -> CancelWaitingAll, then
      NotifyDelete), Stop, StartTiming, Wait, StoppedWaitFor(0, false), StoppedNotify (deletes
      the thread), Resume, ScriptExecuteInternal (saves / restores the current thread - both are
-     SafePtr: they read as null once the thread is destroyed - and calls ExecuteRunning);
+     SafePtr: they read as null once the thread is destroyed -, counts the executions in
+     progress in m_ExecutionDepth and calls ExecuteRunning only from the outermost one);
    * ScriptClass: AddThread (push front), RemoveThread (the last thread deletes the instance),
      ~ScriptClass (unlink from the director's chain, KillThreads), KillThreads (detach all,
      then delete every thread that still exists: weak references);
@@ -31,16 +32,19 @@
      is detached and gets StoppedNotify = it is deleted: a cascade);
    * the C++ call stack as an explicit stack of frames ([FExec]: ScriptVM::Execute of a thread
      with the rest of its program, [FSEI]: the epilogue of ScriptExecuteInternal, [FLoop]: the
-     loop of ExecuteRunning) so that a Reset / recompile issued by a host command from inside a
+     loop of ExecuteRunning, [FDec]: its decrement of the execution depth after a Resume) so that a Reset / recompile issued by a host command from inside a
      running script (at any nesting depth of `thread` / `waitthread`) acts on a state in which
      the callers' VMs are still executing.
 
    Abstracted: intrusive linked lists are Coq lists (ScriptClass::m_Threads / ScriptVM::next,
    the director's chain of instances); each wait-for / notify table holds at most one entry in
    this alphabet and is an [option] (a second entry sets [ub]); ScriptThread::Stop of a thread
-   that is still waiting for somebody would cancel (delete) the awaited threads - never reached
-   in this alphabet, sets [ub]; the string dictionary, the event queue and script variables
-   are not modelled; a thread is an abstract program.  Loops carry fuel; running out of fuel
+   that still waits for somebody cancels the wait and deletes the awaited thread: this is
+   [stop_full] (used by the timing commands one thread applies to another); [stop] is the same
+   function for the callers whose thread waits for nobody (a branch that would need the
+   cancellation there sets [ub]); the string dictionary, the event queue and script variables
+   are not modelled (except the level variables r<k>, weak references to threads, through which
+   one thread applies wait / waitframe / pause to another one); a thread is an abstract program.  Loops carry fuel; running out of fuel
    sets the sticky flag [oof].  NO proofs in this file. *)
 From Coq Require Import NArith List Bool.
 From Morfuse Require Import Base.Arr.
@@ -53,7 +57,12 @@ Inductive instr :=
 | IThread (p : list instr)       (* thread label: a new thread of the same instance, run at once *)
 | IWaitThread (p : list instr)   (* waitthread label: a new instance; the caller waits for its end *)
 | IReset                         (* a host command that calls director.Reset() *)
-| IRecompile.                    (* a host command that recompiles the running script *)
+| IRecompile                     (* a host command that recompiles the running script *)
+| IStore (k : N)                 (* level.r<k> = local: a (weak) reference to the running thread *)
+| IPause                         (* pause *)
+| IXWait (k d : N)               (* level.r<k> wait d: ScriptThread::EventWait applied to THAT thread *)
+| IXWaitFrame (k : N)            (* level.r<k> waitframe: Wait(GetTime()) applied to that thread *)
+| IXPause (k : N).               (* level.r<k> pause *)
 
 Inductive tstate := TRunning | TTiming | TWaiting.            (* threadState_e *)
 Inductive vstate := VRunning | VSuspended | VIdling | VDestroyed.   (* vmState_e *)
@@ -76,7 +85,8 @@ Record cls := mkC {
 Inductive frame :=
 | FExec (t : N) (p : list instr)
 | FSEI (saved : option N)
-| FLoop.
+| FLoop
+| FDec.                        (* --m_ExecutionDepth after a resumed thread has returned into the loop *)
 
 Record st := mkSt {
   threads : arr thread;
@@ -95,6 +105,8 @@ Record st := mkSt {
   startclk : N;
   clock : N;
   cur : option N;
+  depth : nat;
+  refs : arr (option N);
   nextid : N;
   nextscript : N;
   stack : list frame;
@@ -106,55 +118,59 @@ Record st := mkSt {
   oof : bool }.
 
 Definition set_threads (v : arr thread) (s : st) : st :=
-  mkSt v (vms s) (classes s) (tpool s) (vpool s) (cpool s) (chain s) (scripts s) (elems s) (mtime s) (dirty s) (scaled s) (lastclk s) (startclk s) (clock s) (cur s) (nextid s) (nextscript s) (stack s) (out s) (tlog s) (vlog s) (clog s) (ub s) (oof s).
+  mkSt v (vms s) (classes s) (tpool s) (vpool s) (cpool s) (chain s) (scripts s) (elems s) (mtime s) (dirty s) (scaled s) (lastclk s) (startclk s) (clock s) (cur s) (depth s) (refs s) (nextid s) (nextscript s) (stack s) (out s) (tlog s) (vlog s) (clog s) (ub s) (oof s).
 Definition set_vms (v : arr vm) (s : st) : st :=
-  mkSt (threads s) v (classes s) (tpool s) (vpool s) (cpool s) (chain s) (scripts s) (elems s) (mtime s) (dirty s) (scaled s) (lastclk s) (startclk s) (clock s) (cur s) (nextid s) (nextscript s) (stack s) (out s) (tlog s) (vlog s) (clog s) (ub s) (oof s).
+  mkSt (threads s) v (classes s) (tpool s) (vpool s) (cpool s) (chain s) (scripts s) (elems s) (mtime s) (dirty s) (scaled s) (lastclk s) (startclk s) (clock s) (cur s) (depth s) (refs s) (nextid s) (nextscript s) (stack s) (out s) (tlog s) (vlog s) (clog s) (ub s) (oof s).
 Definition set_classes (v : arr cls) (s : st) : st :=
-  mkSt (threads s) (vms s) v (tpool s) (vpool s) (cpool s) (chain s) (scripts s) (elems s) (mtime s) (dirty s) (scaled s) (lastclk s) (startclk s) (clock s) (cur s) (nextid s) (nextscript s) (stack s) (out s) (tlog s) (vlog s) (clog s) (ub s) (oof s).
+  mkSt (threads s) (vms s) v (tpool s) (vpool s) (cpool s) (chain s) (scripts s) (elems s) (mtime s) (dirty s) (scaled s) (lastclk s) (startclk s) (clock s) (cur s) (depth s) (refs s) (nextid s) (nextscript s) (stack s) (out s) (tlog s) (vlog s) (clog s) (ub s) (oof s).
 Definition set_tpool (v : list N) (s : st) : st :=
-  mkSt (threads s) (vms s) (classes s) v (vpool s) (cpool s) (chain s) (scripts s) (elems s) (mtime s) (dirty s) (scaled s) (lastclk s) (startclk s) (clock s) (cur s) (nextid s) (nextscript s) (stack s) (out s) (tlog s) (vlog s) (clog s) (ub s) (oof s).
+  mkSt (threads s) (vms s) (classes s) v (vpool s) (cpool s) (chain s) (scripts s) (elems s) (mtime s) (dirty s) (scaled s) (lastclk s) (startclk s) (clock s) (cur s) (depth s) (refs s) (nextid s) (nextscript s) (stack s) (out s) (tlog s) (vlog s) (clog s) (ub s) (oof s).
 Definition set_vpool (v : list N) (s : st) : st :=
-  mkSt (threads s) (vms s) (classes s) (tpool s) v (cpool s) (chain s) (scripts s) (elems s) (mtime s) (dirty s) (scaled s) (lastclk s) (startclk s) (clock s) (cur s) (nextid s) (nextscript s) (stack s) (out s) (tlog s) (vlog s) (clog s) (ub s) (oof s).
+  mkSt (threads s) (vms s) (classes s) (tpool s) v (cpool s) (chain s) (scripts s) (elems s) (mtime s) (dirty s) (scaled s) (lastclk s) (startclk s) (clock s) (cur s) (depth s) (refs s) (nextid s) (nextscript s) (stack s) (out s) (tlog s) (vlog s) (clog s) (ub s) (oof s).
 Definition set_cpool (v : list N) (s : st) : st :=
-  mkSt (threads s) (vms s) (classes s) (tpool s) (vpool s) v (chain s) (scripts s) (elems s) (mtime s) (dirty s) (scaled s) (lastclk s) (startclk s) (clock s) (cur s) (nextid s) (nextscript s) (stack s) (out s) (tlog s) (vlog s) (clog s) (ub s) (oof s).
+  mkSt (threads s) (vms s) (classes s) (tpool s) (vpool s) v (chain s) (scripts s) (elems s) (mtime s) (dirty s) (scaled s) (lastclk s) (startclk s) (clock s) (cur s) (depth s) (refs s) (nextid s) (nextscript s) (stack s) (out s) (tlog s) (vlog s) (clog s) (ub s) (oof s).
 Definition set_chain (v : list N) (s : st) : st :=
-  mkSt (threads s) (vms s) (classes s) (tpool s) (vpool s) (cpool s) v (scripts s) (elems s) (mtime s) (dirty s) (scaled s) (lastclk s) (startclk s) (clock s) (cur s) (nextid s) (nextscript s) (stack s) (out s) (tlog s) (vlog s) (clog s) (ub s) (oof s).
+  mkSt (threads s) (vms s) (classes s) (tpool s) (vpool s) (cpool s) v (scripts s) (elems s) (mtime s) (dirty s) (scaled s) (lastclk s) (startclk s) (clock s) (cur s) (depth s) (refs s) (nextid s) (nextscript s) (stack s) (out s) (tlog s) (vlog s) (clog s) (ub s) (oof s).
 Definition set_scripts (v : list N) (s : st) : st :=
-  mkSt (threads s) (vms s) (classes s) (tpool s) (vpool s) (cpool s) (chain s) v (elems s) (mtime s) (dirty s) (scaled s) (lastclk s) (startclk s) (clock s) (cur s) (nextid s) (nextscript s) (stack s) (out s) (tlog s) (vlog s) (clog s) (ub s) (oof s).
+  mkSt (threads s) (vms s) (classes s) (tpool s) (vpool s) (cpool s) (chain s) v (elems s) (mtime s) (dirty s) (scaled s) (lastclk s) (startclk s) (clock s) (cur s) (depth s) (refs s) (nextid s) (nextscript s) (stack s) (out s) (tlog s) (vlog s) (clog s) (ub s) (oof s).
 Definition set_elems (v : list (N * N)) (s : st) : st :=
-  mkSt (threads s) (vms s) (classes s) (tpool s) (vpool s) (cpool s) (chain s) (scripts s) v (mtime s) (dirty s) (scaled s) (lastclk s) (startclk s) (clock s) (cur s) (nextid s) (nextscript s) (stack s) (out s) (tlog s) (vlog s) (clog s) (ub s) (oof s).
+  mkSt (threads s) (vms s) (classes s) (tpool s) (vpool s) (cpool s) (chain s) (scripts s) v (mtime s) (dirty s) (scaled s) (lastclk s) (startclk s) (clock s) (cur s) (depth s) (refs s) (nextid s) (nextscript s) (stack s) (out s) (tlog s) (vlog s) (clog s) (ub s) (oof s).
 Definition set_mtime (v : N) (s : st) : st :=
-  mkSt (threads s) (vms s) (classes s) (tpool s) (vpool s) (cpool s) (chain s) (scripts s) (elems s) v (dirty s) (scaled s) (lastclk s) (startclk s) (clock s) (cur s) (nextid s) (nextscript s) (stack s) (out s) (tlog s) (vlog s) (clog s) (ub s) (oof s).
+  mkSt (threads s) (vms s) (classes s) (tpool s) (vpool s) (cpool s) (chain s) (scripts s) (elems s) v (dirty s) (scaled s) (lastclk s) (startclk s) (clock s) (cur s) (depth s) (refs s) (nextid s) (nextscript s) (stack s) (out s) (tlog s) (vlog s) (clog s) (ub s) (oof s).
 Definition set_dirty (v : bool) (s : st) : st :=
-  mkSt (threads s) (vms s) (classes s) (tpool s) (vpool s) (cpool s) (chain s) (scripts s) (elems s) (mtime s) v (scaled s) (lastclk s) (startclk s) (clock s) (cur s) (nextid s) (nextscript s) (stack s) (out s) (tlog s) (vlog s) (clog s) (ub s) (oof s).
+  mkSt (threads s) (vms s) (classes s) (tpool s) (vpool s) (cpool s) (chain s) (scripts s) (elems s) (mtime s) v (scaled s) (lastclk s) (startclk s) (clock s) (cur s) (depth s) (refs s) (nextid s) (nextscript s) (stack s) (out s) (tlog s) (vlog s) (clog s) (ub s) (oof s).
 Definition set_scaled (v : N) (s : st) : st :=
-  mkSt (threads s) (vms s) (classes s) (tpool s) (vpool s) (cpool s) (chain s) (scripts s) (elems s) (mtime s) (dirty s) v (lastclk s) (startclk s) (clock s) (cur s) (nextid s) (nextscript s) (stack s) (out s) (tlog s) (vlog s) (clog s) (ub s) (oof s).
+  mkSt (threads s) (vms s) (classes s) (tpool s) (vpool s) (cpool s) (chain s) (scripts s) (elems s) (mtime s) (dirty s) v (lastclk s) (startclk s) (clock s) (cur s) (depth s) (refs s) (nextid s) (nextscript s) (stack s) (out s) (tlog s) (vlog s) (clog s) (ub s) (oof s).
 Definition set_lastclk (v : N) (s : st) : st :=
-  mkSt (threads s) (vms s) (classes s) (tpool s) (vpool s) (cpool s) (chain s) (scripts s) (elems s) (mtime s) (dirty s) (scaled s) v (startclk s) (clock s) (cur s) (nextid s) (nextscript s) (stack s) (out s) (tlog s) (vlog s) (clog s) (ub s) (oof s).
+  mkSt (threads s) (vms s) (classes s) (tpool s) (vpool s) (cpool s) (chain s) (scripts s) (elems s) (mtime s) (dirty s) (scaled s) v (startclk s) (clock s) (cur s) (depth s) (refs s) (nextid s) (nextscript s) (stack s) (out s) (tlog s) (vlog s) (clog s) (ub s) (oof s).
 Definition set_startclk (v : N) (s : st) : st :=
-  mkSt (threads s) (vms s) (classes s) (tpool s) (vpool s) (cpool s) (chain s) (scripts s) (elems s) (mtime s) (dirty s) (scaled s) (lastclk s) v (clock s) (cur s) (nextid s) (nextscript s) (stack s) (out s) (tlog s) (vlog s) (clog s) (ub s) (oof s).
+  mkSt (threads s) (vms s) (classes s) (tpool s) (vpool s) (cpool s) (chain s) (scripts s) (elems s) (mtime s) (dirty s) (scaled s) (lastclk s) v (clock s) (cur s) (depth s) (refs s) (nextid s) (nextscript s) (stack s) (out s) (tlog s) (vlog s) (clog s) (ub s) (oof s).
 Definition set_clock (v : N) (s : st) : st :=
-  mkSt (threads s) (vms s) (classes s) (tpool s) (vpool s) (cpool s) (chain s) (scripts s) (elems s) (mtime s) (dirty s) (scaled s) (lastclk s) (startclk s) v (cur s) (nextid s) (nextscript s) (stack s) (out s) (tlog s) (vlog s) (clog s) (ub s) (oof s).
+  mkSt (threads s) (vms s) (classes s) (tpool s) (vpool s) (cpool s) (chain s) (scripts s) (elems s) (mtime s) (dirty s) (scaled s) (lastclk s) (startclk s) v (cur s) (depth s) (refs s) (nextid s) (nextscript s) (stack s) (out s) (tlog s) (vlog s) (clog s) (ub s) (oof s).
 Definition set_cur (v : option N) (s : st) : st :=
-  mkSt (threads s) (vms s) (classes s) (tpool s) (vpool s) (cpool s) (chain s) (scripts s) (elems s) (mtime s) (dirty s) (scaled s) (lastclk s) (startclk s) (clock s) v (nextid s) (nextscript s) (stack s) (out s) (tlog s) (vlog s) (clog s) (ub s) (oof s).
+  mkSt (threads s) (vms s) (classes s) (tpool s) (vpool s) (cpool s) (chain s) (scripts s) (elems s) (mtime s) (dirty s) (scaled s) (lastclk s) (startclk s) (clock s) v (depth s) (refs s) (nextid s) (nextscript s) (stack s) (out s) (tlog s) (vlog s) (clog s) (ub s) (oof s).
+Definition set_depth (v : nat) (s : st) : st :=
+  mkSt (threads s) (vms s) (classes s) (tpool s) (vpool s) (cpool s) (chain s) (scripts s) (elems s) (mtime s) (dirty s) (scaled s) (lastclk s) (startclk s) (clock s) (cur s) v (refs s) (nextid s) (nextscript s) (stack s) (out s) (tlog s) (vlog s) (clog s) (ub s) (oof s).
+Definition set_refs (v : arr (option N)) (s : st) : st :=
+  mkSt (threads s) (vms s) (classes s) (tpool s) (vpool s) (cpool s) (chain s) (scripts s) (elems s) (mtime s) (dirty s) (scaled s) (lastclk s) (startclk s) (clock s) (cur s) (depth s) v (nextid s) (nextscript s) (stack s) (out s) (tlog s) (vlog s) (clog s) (ub s) (oof s).
 Definition set_nextid (v : N) (s : st) : st :=
-  mkSt (threads s) (vms s) (classes s) (tpool s) (vpool s) (cpool s) (chain s) (scripts s) (elems s) (mtime s) (dirty s) (scaled s) (lastclk s) (startclk s) (clock s) (cur s) v (nextscript s) (stack s) (out s) (tlog s) (vlog s) (clog s) (ub s) (oof s).
+  mkSt (threads s) (vms s) (classes s) (tpool s) (vpool s) (cpool s) (chain s) (scripts s) (elems s) (mtime s) (dirty s) (scaled s) (lastclk s) (startclk s) (clock s) (cur s) (depth s) (refs s) v (nextscript s) (stack s) (out s) (tlog s) (vlog s) (clog s) (ub s) (oof s).
 Definition set_nextscript (v : N) (s : st) : st :=
-  mkSt (threads s) (vms s) (classes s) (tpool s) (vpool s) (cpool s) (chain s) (scripts s) (elems s) (mtime s) (dirty s) (scaled s) (lastclk s) (startclk s) (clock s) (cur s) (nextid s) v (stack s) (out s) (tlog s) (vlog s) (clog s) (ub s) (oof s).
+  mkSt (threads s) (vms s) (classes s) (tpool s) (vpool s) (cpool s) (chain s) (scripts s) (elems s) (mtime s) (dirty s) (scaled s) (lastclk s) (startclk s) (clock s) (cur s) (depth s) (refs s) (nextid s) v (stack s) (out s) (tlog s) (vlog s) (clog s) (ub s) (oof s).
 Definition set_stack (v : list frame) (s : st) : st :=
-  mkSt (threads s) (vms s) (classes s) (tpool s) (vpool s) (cpool s) (chain s) (scripts s) (elems s) (mtime s) (dirty s) (scaled s) (lastclk s) (startclk s) (clock s) (cur s) (nextid s) (nextscript s) v (out s) (tlog s) (vlog s) (clog s) (ub s) (oof s).
+  mkSt (threads s) (vms s) (classes s) (tpool s) (vpool s) (cpool s) (chain s) (scripts s) (elems s) (mtime s) (dirty s) (scaled s) (lastclk s) (startclk s) (clock s) (cur s) (depth s) (refs s) (nextid s) (nextscript s) v (out s) (tlog s) (vlog s) (clog s) (ub s) (oof s).
 Definition set_out (v : list N) (s : st) : st :=
-  mkSt (threads s) (vms s) (classes s) (tpool s) (vpool s) (cpool s) (chain s) (scripts s) (elems s) (mtime s) (dirty s) (scaled s) (lastclk s) (startclk s) (clock s) (cur s) (nextid s) (nextscript s) (stack s) v (tlog s) (vlog s) (clog s) (ub s) (oof s).
+  mkSt (threads s) (vms s) (classes s) (tpool s) (vpool s) (cpool s) (chain s) (scripts s) (elems s) (mtime s) (dirty s) (scaled s) (lastclk s) (startclk s) (clock s) (cur s) (depth s) (refs s) (nextid s) (nextscript s) (stack s) v (tlog s) (vlog s) (clog s) (ub s) (oof s).
 Definition set_tlog (v : list N) (s : st) : st :=
-  mkSt (threads s) (vms s) (classes s) (tpool s) (vpool s) (cpool s) (chain s) (scripts s) (elems s) (mtime s) (dirty s) (scaled s) (lastclk s) (startclk s) (clock s) (cur s) (nextid s) (nextscript s) (stack s) (out s) v (vlog s) (clog s) (ub s) (oof s).
+  mkSt (threads s) (vms s) (classes s) (tpool s) (vpool s) (cpool s) (chain s) (scripts s) (elems s) (mtime s) (dirty s) (scaled s) (lastclk s) (startclk s) (clock s) (cur s) (depth s) (refs s) (nextid s) (nextscript s) (stack s) (out s) v (vlog s) (clog s) (ub s) (oof s).
 Definition set_vlog (v : list N) (s : st) : st :=
-  mkSt (threads s) (vms s) (classes s) (tpool s) (vpool s) (cpool s) (chain s) (scripts s) (elems s) (mtime s) (dirty s) (scaled s) (lastclk s) (startclk s) (clock s) (cur s) (nextid s) (nextscript s) (stack s) (out s) (tlog s) v (clog s) (ub s) (oof s).
+  mkSt (threads s) (vms s) (classes s) (tpool s) (vpool s) (cpool s) (chain s) (scripts s) (elems s) (mtime s) (dirty s) (scaled s) (lastclk s) (startclk s) (clock s) (cur s) (depth s) (refs s) (nextid s) (nextscript s) (stack s) (out s) (tlog s) v (clog s) (ub s) (oof s).
 Definition set_clog (v : list N) (s : st) : st :=
-  mkSt (threads s) (vms s) (classes s) (tpool s) (vpool s) (cpool s) (chain s) (scripts s) (elems s) (mtime s) (dirty s) (scaled s) (lastclk s) (startclk s) (clock s) (cur s) (nextid s) (nextscript s) (stack s) (out s) (tlog s) (vlog s) v (ub s) (oof s).
+  mkSt (threads s) (vms s) (classes s) (tpool s) (vpool s) (cpool s) (chain s) (scripts s) (elems s) (mtime s) (dirty s) (scaled s) (lastclk s) (startclk s) (clock s) (cur s) (depth s) (refs s) (nextid s) (nextscript s) (stack s) (out s) (tlog s) (vlog s) v (ub s) (oof s).
 Definition set_ub (v : bool) (s : st) : st :=
-  mkSt (threads s) (vms s) (classes s) (tpool s) (vpool s) (cpool s) (chain s) (scripts s) (elems s) (mtime s) (dirty s) (scaled s) (lastclk s) (startclk s) (clock s) (cur s) (nextid s) (nextscript s) (stack s) (out s) (tlog s) (vlog s) (clog s) v (oof s).
+  mkSt (threads s) (vms s) (classes s) (tpool s) (vpool s) (cpool s) (chain s) (scripts s) (elems s) (mtime s) (dirty s) (scaled s) (lastclk s) (startclk s) (clock s) (cur s) (depth s) (refs s) (nextid s) (nextscript s) (stack s) (out s) (tlog s) (vlog s) (clog s) v (oof s).
 Definition set_oof (v : bool) (s : st) : st :=
-  mkSt (threads s) (vms s) (classes s) (tpool s) (vpool s) (cpool s) (chain s) (scripts s) (elems s) (mtime s) (dirty s) (scaled s) (lastclk s) (startclk s) (clock s) (cur s) (nextid s) (nextscript s) (stack s) (out s) (tlog s) (vlog s) (clog s) (ub s) v.
+  mkSt (threads s) (vms s) (classes s) (tpool s) (vpool s) (cpool s) (chain s) (scripts s) (elems s) (mtime s) (dirty s) (scaled s) (lastclk s) (startclk s) (clock s) (cur s) (depth s) (refs s) (nextid s) (nextscript s) (stack s) (out s) (tlog s) (vlog s) (clog s) (ub s) v.
 
 Definition th (s : st) (t : N) : thread := get (threads s) t.
 Definition vmof (s : st) (v : N) : vm := get (vms s) v.
@@ -377,6 +393,31 @@ with destroy_class (f : nat) (c : N) (s : st) {struct f} : st :=        (* ~Scri
 
 Definition dfuel (s : st) : nat := (16 + 8 * (length (tpool s) + length (cpool s)))%nat.
 
+(* ScriptThread::Stop in full: a thread that still waits for another one (waitthread) cancels the
+   wait - the awaited thread is deleted (StoppedNotify).  [stop] above is the same function for
+   every thread that waits for nobody. *)
+Definition stop_full (t : N) (s : st) : st :=
+  match t_state (th s t) with
+  | TWaiting =>
+      match t_waitfor (th s t) with
+      | None => set_tstate t TRunning s
+      | Some _ => cancel_waiting_all (dfuel s) t (set_tstate t TRunning s)
+      end
+  | _ => stop t s
+  end.
+(* ScriptThread::Wait / Pause applied to thread b by whoever executes the command *)
+Definition wait_on (b d : N) (s : st) : st :=
+  let s1 := stop_full b s in
+  suspend b (add_timing b d (set_tstate b TTiming s1)).
+Definition pause_on (b : N) (s : st) : st := suspend b (stop_full b s).
+(* a level variable holds a SafePtr: it reads as NULL once the thread is destroyed (and as NIL when
+   it was never set): the command is then a script error and nothing happens *)
+Definition deref (k : N) (s : st) : option N :=
+  match get (refs s) k with
+  | Some x => if memb x (tpool s) then Some x else None
+  | None => None
+  end.
+
 (* BlockAlloc::FreeAll on the instance pool *)
 Fixpoint free_all (f : nat) (s : st) : st :=
   match f with
@@ -421,12 +462,13 @@ Definition new_thread (c : N) (p : list instr) (s : st) : N * st :=   (* new Scr
   let s4 := set_tpool (tpool s3 ++ [id]) (set_vpool (vpool s3 ++ [id]) s3) in
   (id, set_cthreads c (id :: c_threads (clsof s4 c)) s4).
 
-(* ScriptThread::ScriptExecuteInternal up to the call of ScriptVM::Execute (which sets Running) *)
+(* ScriptThread::ScriptExecuteInternal up to the call of ScriptVM::Execute (which sets Running);
+   m_ExecutionDepth counts the thread executions in progress on the native stack *)
 Definition enter (t : N) (p : list instr) (s : st) : st :=
   let saved := cur s in
   let s1 := set_cur (Some t) s in
   let s2 := stop t s1 in
-  let s3 := set_vstate t VRunning s2 in
+  let s3 := set_depth (S (depth s2)) (set_vstate t VRunning s2) in      (* ++m_ExecutionDepth *)
   set_stack (FExec t p :: FSEI saved :: stack s3) s3.
 
 (* ScriptMaster::ExecuteRunning: nothing while there is a current thread *)
@@ -484,6 +526,11 @@ Definition exec_instr (t : N) (i : instr) (r : list instr) (s0 : st) : st :=
       | Some k => recompile k s
       | None => flag_ub s
       end
+  | IStore k => set_refs (set (refs s) k (Some t)) s
+  | IPause => pause_on t s
+  | IXWait k d => match deref k s with Some b => wait_on b d s | None => s end
+  | IXWaitFrame k => match deref k s with Some b => wait_on b (clock s - startclk s) s | None => s end
+  | IXPause k => match deref k s with Some b => pause_on b s | None => s end
   end.
 
 Definition step (s : st) : st :=
@@ -506,7 +553,12 @@ Definition step (s : st) : st :=
                | Some x => if memb x (tpool s) then Some x else None
                | None => None
                end in
-      execute_running (pop (set_cur c s))
+      let s1 := pop (set_cur c (set_depth (pred (depth s)) s)) in      (* --m_ExecutionDepth; restore *)
+      (* only the outermost execution runs the due threads *)
+      match depth s1 with
+      | O => execute_running s1
+      | S _ => s1
+      end
   | FLoop :: _ =>
       match get_next s with
       | None => pop (set_cur None (set_dirty false s))
@@ -514,10 +566,11 @@ Definition step (s : st) : st :=
           if negb (memb t (tpool s1)) then flag_ub s1 else
           let s2 := set_tstate t TRunning (set_cur (Some t) s1) in     (* Resume *)
           if t_vm (th s2 t) then
-            let s3 := set_vstate t VRunning s2 in
-            set_stack (FExec t (v_cont (vmof s3 t)) :: stack s3) s3
+            let s3 := set_depth (S (depth s2)) (set_vstate t VRunning s2) in   (* ++m_ExecutionDepth; Resume *)
+            set_stack (FExec t (v_cont (vmof s3 t)) :: FDec :: stack s3) s3
           else flag_ub s2
       end
+  | FDec :: _ => pop (set_depth (pred (depth s)) s)
   end.
 
 Fixpoint run_stack (f : nat) (s : st) : st :=
@@ -556,9 +609,10 @@ Inductive op :=
 
 Definition init (c : N) : st :=
   mkSt (aempty (mkT false TRunning None None)) (aempty (mkV None VDestroyed [])) (aempty (mkC 0 []))
-       [] [] [] [] [] [] 0 false 0 c c c None 0 0 [] [] [] [] [] false false.
+       [] [] [] [] [] [] 0 false 0 c c c None O (aempty None) 0 0 [] [] [] [] [] false false.
 
 Definition host_step (s0 : st) (o : op) : st :=
+  if ub s0 || oof s0 then s0 else      (* after an error the model says nothing any more *)
   let s := set_out [] s0 in
   match o with
   | OStart p =>
@@ -581,14 +635,14 @@ Definition host_step (s0 : st) (o : op) : st :=
   end.
 
 Record obs := mkObs {
-  prints : list N; idle : bool; ncls : nat; nthr : nat; nvm : nat; nscr : nat; tmr : bool;
+  prints : list N; idle : bool; ncls : nat; nthr : nat; nvm : nat; nscr : nat; ntmr : nat;   (* ntmr: timer elements *)
   err : nat }.    (* 0 = fine, 1 = ub, 2 = out of fuel *)
 
 Definition observe (s : st) : obs :=
   mkObs (rev (out s))
         (match cpool s with [] => true | _ => false end)     (* IsIdle: no instance (and no queued event) *)
         (length (cpool s)) (length (tpool s)) (length (vpool s)) (length (scripts s))
-        (match elems s with [] => false | _ => true end)
+        (length (elems s))
         (if ub s then 1 else if oof s then 2 else 0)%nat.
 
 Fixpoint run_from (s : st) (ops : list op) : list obs :=
